@@ -118,6 +118,18 @@ def gen_line(rng):
 def gen_log(rng, maxlines):
     n = rng.choice([0, 1, 2, 3, rng.randrange(0, maxlines), rng.randrange(0, maxlines)])
     lines = [gen_line(rng) for _ in range(n)]
+    # bursts: runs of consecutive lines of one class (a reader that gives up, resynchronises or counts per
+    # run instead of per line is only visible on runs), always followed by at least one more line
+    for _ in range(rng.choice([0, 0, 1, 1, 2])):
+        cls = rng.choice(['io', 'io', 'malformed', 'empty', 'unsupported', 'ok'])
+        run = []
+        while len(run) < rng.choice([2, 3, 3, 4, 6, 9]):
+            ln = gen_line(rng)
+            if ln[2] == cls: run.append(ln)
+        at = rng.randrange(0, len(lines) + 1)
+        tail = [gen_line(rng) for _ in range(rng.randrange(1, 4))] if at == len(lines) else []
+        lines[at:at] = run
+        lines += tail
     data = b''
     for i, (b, _, _) in enumerate(lines):
         last = i == len(lines) - 1
